@@ -828,7 +828,7 @@ register("C01", run_C01, module="Robotools.Props.C01", extra_modules=["Robotools
                   + ["Robotools.Amt." + t for t in ("amtOf_amtMerge", "take_amt", "put_amt", "interp_asp_amt", "interp_disp_amt", "asp1", "disp1",
                                                     "ablock_pair", "ablock_compileTransfer", "compile_ablock", "amtOK_ofLabs")]
                   + ["Robotools.C01D." + t for t in ("replay_volumes_dist", "replay_volumes_evo", "replay_volumes_fluent", "srcOK_evo", "srcOK_fluent", "compile_safeD",
-                                                     "replay_composition_dist", "replay_composition_evo", "compile_ablockD")]
+                                                     "replay_composition_dist", "replay_composition_evo", "replay_composition_fluent", "compile_ablockD")]
                   + ["Robotools.Dist." + t for t in ("ablock_compileDistribute", "dist_core", "go_amt", "interp_rd_amt", "exec_ads_amt")]
                   + ["Robotools.Dist." + t for t in ("posInj_evo", "posInj_fluent_plate", "posInj_fluent_trough1", "nodup_pos")]
                   + ["Robotools.Dist." + t for t in ("safe_compileDistribute", "interp_rd", "go_spec", "dsts_eq", "addChecked_perm", "exec_ads")]
